@@ -1,7 +1,214 @@
-import Nv.Model.C08
-/-! C08 — property theorems (placeholder during milestone A). -/
+import Nv.Proofs.C08Chain
+/-!
+C08 — property theorems for `bitmap1024` (model: `Nv.Model.C08`; proofs: `Nv/Proofs/C08*.lean`).
+
+Every statement quantifies over all 2^64 words / all 2^1024 bitmaps, every `n : Int` (negative included), every
+position, every `add`, every element width `w` (the Go code instantiates 8/16/32/64), both directions and
+**every** value of the sparse threshold `magic`. The configuration `c` ranges over `Proved` (`B64 = 64`, `L16 = 16`,
+any initial threshold). Membership: `b.getLsbD i` for a word, `mem1024 b i` for a 1024-bit map.
+-/
 namespace Nv.C08
 
-theorem popcount_allOnes : popcount (~~~(0#64)) = 64 := by decide
+/-! ### the sets -/
+
+theorem mem_members (b : Bit64) (i : Nat) : i ∈ members b ↔ i < 64 ∧ b.getLsbD i = true := by
+  simp [members]
+
+theorem mem_members1024 (b : Bit1024) (i : Nat) : i ∈ members1024 b ↔ mem1024 b i = true := by
+  unfold members1024
+  rw [List.mem_filter, List.mem_range]
+  exact ⟨fun h => h.2, fun h => ⟨mem1024_lt b i h, h⟩⟩
+
+/-- a 1024-bit map is a set of integers in [0,1023] -/
+theorem mem1024_range (b : Bit1024) (i : Nat) (h : mem1024 b i = true) : i < 1024 := mem1024_lt b i h
+
+theorem members_ascending (b : Bit64) : (members b).Pairwise (· < ·) :=
+  List.Pairwise.filter _ List.pairwise_lt_range
+
+theorem members1024_ascending (b : Bit1024) : (members1024 b).Pairwise (· < ·) :=
+  List.Pairwise.filter _ List.pairwise_lt_range
+
+/-- extensionality: the member set determines the bitmap -/
+theorem bitmap_ext (a b : Bit1024) (h : ∀ j, j < 1024 → mem1024 a j = mem1024 b j) : a = b := ext1024 a b h
+
+/-! ### set / unset: membership of exactly that index changes; out-of-range indices are ignored -/
+
+/-- `Bit64.Set(i)`: bit `i` joins when `i ≤ 63`, every other `i : byte` is ignored -/
+theorem set64_spec (b : Bit64) (i : BitVec 8) (j : Nat) :
+    (set64 b i).getLsbD j = (b.getLsbD j || (decide (i.toNat ≤ 63) && decide (i.toNat = j))) := set64_getLsbD b i j
+
+theorem unset64_spec (b : Bit64) (i : BitVec 8) (j : Nat) :
+    (unset64 b i).getLsbD j = (b.getLsbD j && !(decide (i.toNat ≤ 63) && decide (i.toNat = j))) := unset64_getLsbD b i j
+
+/-- `Bit1024.SetI32(i)` for all 2^32 arguments: index `i` joins iff `0 ≤ i < 1024`; nothing else changes
+    (negative and ≥ 1024 are ignored — for −63…−1 only because `Bit64.Set` rejects the byte `256 + i%64`) -/
+theorem setI32_spec (b : Bit1024) (i : BitVec 32) (j : Nat) :
+    mem1024 (setI32 b i) j = (mem1024 b j || decide (0 ≤ i.toInt ∧ i.toInt < 1024 ∧ i.toInt = (j : Int))) := setI32_mem b i j
+
+theorem unsetI32_spec (b : Bit1024) (i : BitVec 32) (j : Nat) :
+    mem1024 (unsetI32 b i) j = (mem1024 b j && !decide (0 ≤ i.toInt ∧ i.toInt < 1024 ∧ i.toInt = (j : Int))) := unsetI32_mem b i j
+
+theorem setI16_spec (b : Bit1024) (i : BitVec 16) (j : Nat) :
+    mem1024 (setI16 b i) j = (mem1024 b j || decide (0 ≤ i.toInt ∧ i.toInt < 1024 ∧ i.toInt = (j : Int))) := setI16_mem b i j
+
+theorem unsetI16_spec (b : Bit1024) (i : BitVec 16) (j : Nat) :
+    mem1024 (unsetI16 b i) j = (mem1024 b j && !decide (0 ≤ i.toInt ∧ i.toInt < 1024 ∧ i.toInt = (j : Int))) := unsetI16_mem b i j
+
+/-- out-of-range indices leave the bitmap unchanged (corollary, as an equation between bitmaps) -/
+theorem setI32_out_of_range (b : Bit1024) (i : BitVec 32) (h : ¬(0 ≤ i.toInt ∧ i.toInt < 1024)) : setI32 b i = b := by
+  apply ext1024
+  intro j _
+  rw [setI32_mem]
+  have : ¬(0 ≤ i.toInt ∧ i.toInt < 1024 ∧ i.toInt = (j : Int)) := fun hh => h ⟨hh.1, hh.2.1⟩
+  simp [this]
+
+/-! ### Len / NLen count members and non-members -/
+
+theorem count_split (p : Nat → Bool) (l : List Nat) :
+    (l.filter p).length + (l.filter (fun i => !p i)).length = l.length := by
+  induction l with
+  | nil => rfl
+  | cons a l ih =>
+    cases h : p a <;> simp [h] <;> omega
+
+theorem len64_spec (b : Bit64) :
+    len64 b = (members b).length ∧ nlen64 b = ((List.range 64).filter (fun i => !b.getLsbD i)).length := by
+  have h := count_split b.getLsbD (List.range 64)
+  have hl := len64_eq b
+  unfold nlen64
+  unfold members at hl
+  simp only [List.length_range] at h
+  constructor
+  · exact len64_eq b
+  · omega
+
+theorem toList_eq_words (b : Bit1024) : b.toList = (List.range 16).map (word b) := by
+  apply List.ext_getElem
+  · simp
+  · intro i h1 h2
+    have hi : i < 16 := by simpa using h2
+    simp [word, hi]
+
+theorem len1024_eq (b : Bit1024) : len1024 b = (members1024 b).length := by
+  unfold len1024
+  rw [toList_eq_words, members1024_blocks, List.length_flatMap, List.map_map]
+  congr 1
+  apply List.map_congr_left
+  intro k _
+  simp [len64_eq]
+
+theorem len_nlen (b : Bit1024) :
+    len1024 b = (members1024 b).length ∧
+    nlen1024 b = ((List.range 1024).filter (fun i => !mem1024 b i)).length := by
+  have h := count_split (mem1024 b) (List.range 1024)
+  have hl := len1024_eq b
+  unfold nlen1024
+  unfold members1024 at hl
+  simp only [List.length_range] at h
+  constructor
+  · exact len1024_eq b
+  · omega
+
+/-! ### And / Or / Reverse / OrThenReverse / Equal are ∩, ∪, complement, complement of ∪, equality -/
+
+theorem and_or_rev_equal (a b : Bit1024) :
+    (∀ j, mem1024 (and1024 a b) j = (mem1024 a j && mem1024 b j)) ∧
+    (∀ j, mem1024 (or1024 a b) j = (mem1024 a j || mem1024 b j)) ∧
+    (∀ j, j < 1024 → mem1024 (reverse1024 a) j = !mem1024 a j) ∧
+    (∀ j, j < 1024 → mem1024 (orThenReverse1024 a b) j = !(mem1024 a j || mem1024 b j)) ∧
+    (equal1024 a b = true ↔ a = b) :=
+  ⟨and1024_mem a b, or1024_mem a b, reverse1024_mem a, orThenReverse1024_mem a b, equal1024_iff a b⟩
+
+theorem algebra64 (a b : Bit64) (j : Nat) (hj : j < 64) :
+    (and64 a b).getLsbD j = (a.getLsbD j && b.getLsbD j) ∧ (or64 a b).getLsbD j = (a.getLsbD j || b.getLsbD j) ∧
+    (reverse64 a).getLsbD j = !a.getLsbD j := by
+  simp [and64, or64, reverse64, hj]
+
+/-! ### iterators -/
+
+/-- **Every 64-bit iterator** (`Bit64.IterAs*/RIterAs*`, any width, either direction, any threshold): writes exactly
+    the first `min(n, Len)` members in ascending (descending) order, each offset by `add` (wrapping in the element
+    width), at `pos…`, leaves every other cell untouched, and returns that count. Precondition: `pos ≥ 0` and room. -/
+theorem iter64_spec {w : Nat} (magic : Int) (rev : Bool) (b : Bit64) (s : List (BitVec w)) (pos : Int)
+    (add : BitVec w) (n : Int) (h0 : 0 ≤ pos)
+    (hroom : pos.toNat + (expected rev (members b) add n).length ≤ s.length) :
+    iter64 magic rev b s pos add n =
+      some (writeAt s pos.toNat (expected rev (members b) add n), (expected rev (members b) add n).length) :=
+  iter64_eq_spec magic rev b s pos add n h0 hroom
+
+/-- the count is `min(n, Len)` (0 for negative n) -/
+theorem expected_length {w : Nat} (rev : Bool) (ms : List Nat) (add : BitVec w) (n : Int) :
+    (expected rev ms add n).length = min n.toNat ms.length := by
+  unfold expected; cases rev <;> simp
+
+-- non-vacuity: word {0,7,56..63}, int8, pos 1, slice of 5, n = 3
+example : (0 : Int) ≤ 1 ∧ (1 : Int).toNat + (expected (w := 8) false (members 0xff00000000000081#64) 120#8 3).length ≤ 5 := by decide
+example : iter64 (w := 8) 9 false 0xff00000000000081#64 [1#8, 2#8, 3#8, 4#8, 5#8] 1 120#8 3 =
+    some ([1#8, 120#8, 127#8, 176#8, 5#8], 3) := by decide
+
+/-- the result does not depend on the sparse/dense traversal threshold -/
+theorem iter64_threshold_irrelevant {w : Nat} (m1 m2 : Int) (rev : Bool) (b : Bit64) (s : List (BitVec w)) (pos : Int)
+    (add : BitVec w) (n : Int) (h0 : 0 ≤ pos)
+    (hroom : pos.toNat + (expected rev (members b) add n).length ≤ s.length) :
+    iter64 m1 rev b s pos add n = iter64 m2 rev b s pos add n := by
+  rw [iter64_eq_spec m1 rev b s pos add n h0 hroom, iter64_eq_spec m2 rev b s pos add n h0 hroom]
+
+/-- **Every 1024-bit iterator** (`Bit1024.IterAs*/RIterAs*`): same statement over the 1024-bit set -/
+theorem iter1024_spec {w : Nat} (c : Cfg) (hc : Proved c) (magic : Int) (rev : Bool) (b : Bit1024)
+    (s : List (BitVec w)) (pos : Int) (add : BitVec w) (n : Int) (h0 : 0 ≤ pos)
+    (hroom : pos.toNat + (expected rev (members1024 b) add n).length ≤ s.length) :
+    iter1024 c magic rev b s pos add n =
+      some (writeAt s pos.toNat (expected rev (members1024 b) add n), (expected rev (members1024 b) add n).length) :=
+  iter1024_eq_spec c hc magic rev b s pos add n h0 hroom
+
+theorem iter1024_threshold_irrelevant {w : Nat} (c : Cfg) (hc : Proved c) (m1 m2 : Int) (rev : Bool) (b : Bit1024)
+    (s : List (BitVec w)) (pos : Int) (add : BitVec w) (n : Int) (h0 : 0 ≤ pos)
+    (hroom : pos.toNat + (expected rev (members1024 b) add n).length ≤ s.length) :
+    iter1024 c m1 rev b s pos add n = iter1024 c m2 rev b s pos add n := by
+  rw [iter1024_eq_spec c hc m1 rev b s pos add n h0 hroom, iter1024_eq_spec c hc m2 rev b s pos add n h0 hroom]
+
+example : Proved ⟨9, 64, 16⟩ := by decide
+example : Proved ⟨-5, 64, 16⟩ := by decide
+
+/-! ### GetN: allocate `n` cells, iterate from 0 with `add = 0`, return the written prefix (nil when empty) -/
+
+theorem getNOf_spec {w : Nat} (n : Int) (hn : 0 ≤ n) (out : List (BitVec w))
+    (it : List (BitVec w) → Option (List (BitVec w) × Nat))
+    (hit : ∀ s, s.length = n.toNat → it s = some (writeAt s 0 out, out.length)) :
+    getNOf n it = if out = [] then .nil else .slice out := by
+  unfold getNOf
+  have : ¬ n < 0 := by omega
+  simp only [this, if_false, hit _ (List.length_replicate ..)]
+  by_cases ho : out = []
+  · simp [ho]
+  · have : out.length ≠ 0 := fun h => ho (List.length_eq_zero_iff.1 h)
+    simp [this, ho, writeAt]
+
+theorem getN64_spec {w : Nat} (magic : Int) (rev : Bool) (b : Bit64) (n : Int) (hn : 0 ≤ n) :
+    getN64 (w := w) magic rev b n =
+      if expected rev (members b) (0 : BitVec w) n = [] then .nil else .slice (expected rev (members b) 0 n) := by
+  unfold getN64
+  apply getNOf_spec n hn
+  intro s hs
+  have := iter64_eq_spec magic rev b s 0 (0 : BitVec w) n (by omega) (by rw [expected_length, hs]; simp; omega)
+  simpa using this
+
+theorem getN1024_spec {w : Nat} (c : Cfg) (hc : Proved c) (magic : Int) (rev : Bool) (b : Bit1024) (n : Int) (hn : 0 ≤ n) :
+    getN1024 (w := w) c magic rev b n =
+      if expected rev (members1024 b) (0 : BitVec w) n = [] then .nil else .slice (expected rev (members1024 b) 0 n) := by
+  unfold getN1024
+  apply getNOf_spec n hn
+  intro s hs
+  have := iter1024_eq_spec c hc magic rev b s 0 (0 : BitVec w) n (by omega) (by rw [expected_length, hs]; simp; omega)
+  simpa using this
+
+/-- outside the property: `GetN*` with a negative count panics (in `make`) — exhibited, not hidden -/
+theorem getN_negative_panics {w : Nat} (magic : Int) (rev : Bool) (b : Bit64) (n : Int) (hn : n < 0) :
+    getN64 (w := w) magic rev b n = .panic := by
+  simp [getN64, getNOf, hn]
+
+/-- outside the precondition: without room the iterator panics (index out of range) — `TestBit64_Iter` of the
+    baseline hits exactly this with a zero-length slice -/
+example : iter64 (w := 64) 9 false 5#64 [] 0 0#64 3 = none := by decide
 
 end Nv.C08
